@@ -10,6 +10,7 @@
 //!   Q r p                       r = Quantile::new(p)   (any estimator: new with param p)
 //!   V r v                       r = Type::from_value(v)            (Min/Max)
 //!   A r x...                    r.add(x) for each x (pairs for 2-ary estimators)
+//!   AR r count x...             `count` adds, cycling through x...
 //!   F r x... | FR r x...        r = collect by value | by reference
 //!   E r x... | ER r x...        r.extend(by value | by reference)
 //!   M r s                       r.merge(&s)
@@ -131,6 +132,26 @@ fn run_case<T: Est>(params: &[&str], ops: &[Vec<&str>], out: &mut String) {
                 if let Err(m) = guarded(|| {
                     for c in vals.chunks(T::ARITY) {
                         r.add1(c);
+                    }
+                }) {
+                    writeln!(out, "p {} {}", idx, m).unwrap();
+                }
+            }
+            "AR" => {
+                // add the given observations cyclically until `count` adds were made (billions of adds without
+                // billions of tokens): AR r count x...
+                let count: u64 = op[2].parse().unwrap();
+                let vals = pfs(&op[3..]);
+                let r = need!(reg(op[1]));
+                let chunks: Vec<&[f64]> = vals.chunks(T::ARITY).collect();
+                if let Err(m) = guarded(|| {
+                    let mut i = 0usize;
+                    for _ in 0..count {
+                        r.add1(chunks[i]);
+                        i += 1;
+                        if i == chunks.len() {
+                            i = 0;
+                        }
                     }
                 }) {
                     writeln!(out, "p {} {}", idx, m).unwrap();
